@@ -242,11 +242,15 @@ prop("C16",
           "judged: init segment first per representation, DASH-IF-Ingest 1.1, credentials, CMAF extension and content type, exactly one more "
           "media segment per representation per effective step, numbers/times consecutive from the model's live edge + 1, each body "
           "byte-identical to livesim2's own response for that segment (the last one up to the lmsg brand), duration d => d/segDur segments "
-          "with lmsg on the last, nothing after delete/finish, and every API call returns. Non-trivial = a history with >= 3 effective steps "
-          "on a session with >= 2 representations.",
+          "with lmsg on the last, nothing after delete/finish, and every API call returns. Further session kinds: deleted right after "
+          "creation (only init segments may ever arrive), startNumber 1/7, receivers answering 500 to every 2nd media upload (stream goes on, no "
+          "retry) or 403 to an init (no media), URLs with a statuscode_ pattern (affected segments may be absent, the rest in order and "
+          "faithful), 2.002 s and 1001-based segment durations, low-latency sessions (ato 3/4, chunkdur 1/4 of a 1.0-1.6 s segment, chunked "
+          "transfer; also combined with statuscode_), an upload aborted by deleting the session. Non-trivial = a history with >= 3 effective "
+          "steps on a session with >= 2 representations.",
      quick=dict(shards=2, timeout=500), thorough=dict(shards=16, timeout=1500, pct=500), crash_is_violation=True,
-     assumptions=COMMON + ["step mode (testNowMS) only; real-time pacing and chunked sessions are not exercised in this check",
-                           "startNumber 0 (the sender's numbering with snr_ is outside the checked domain)"])
+     assumptions=COMMON + ["step mode (testNowMS) only: wall-clock pacing of the session loop is not exercised; chunked sessions are exercised with 1.0-1.6 s segments (each step is produced in real time)",
+                           "a session with a duration is drawn only for assets whose representations share one segment grid (DESIGN O7)"])
 
 prop("C07",
      rule="rapid draws an asset (bundled or generated), 1-3 instants, 1-3 option sets from a pool of 38 URL options (segment "
